@@ -189,7 +189,7 @@ Proof.
   induction b as [|[c d] t IH]; intros s stored acc Ho I; cbn [st_puts spec_batch].
   - exists s, (rev acc). auto.
   - unfold st_put. destruct (cid_parse c) as [p|] eqn:Hp.
-    + rewrite (inv_closed _ _ _ _ _ _ I).
+    + rewrite (inv_closed _ _ _ _ _ _ I), (inv_fin _ _ _ _ _ _ I).
       destruct (put_one_spec k o roots ro s stored c d p Ho I Hp) as (s' & out & Hput & I' & _).
       rewrite Hput. destruct (spec_put o ro stored (c, d)) as [stored' refused]. cbn [fst] in I'.
       rewrite andb_false_r. apply IH; assumption.
@@ -277,7 +277,7 @@ Proof.
     + unfold bs_finalize, bs_finalize_ro. rewrite Hopts, Hv.
       unfold bs_close. cbn [set_flags ws_opts ws_finalized ws_closed]. rewrite Hopts, Hv, Hcl. cbn [negb andb].
       eexists. split; [reflexivity|]. exact Hl.
-    + unfold st_finalize. rewrite Hopts, Hv, Hcl. eexists. split; [reflexivity|]. exact Hl.
+    + unfold st_finalize. rewrite Hfin, Hopts, Hv, Hcl. eexists. split; [reflexivity|]. exact Hl.
   - destruct k as [|wa].
     + unfold bs_finalize, bs_finalize_ro. rewrite Hopts, Hv, Hcl, Hfin.
       destruct (store_finalize_layout KBlockstore o roots ro s stored fi false true Ho Hv I Hfit (Hfi eq_refl))
@@ -289,10 +289,10 @@ Proof.
         destruct (write_chunks _ _ _) as [[? ?] ?]. destruct (negb _); [discriminate|].
         destruct (write_chunks _ _ _) as [[? ?] ?]. inversion Hsf. cbn. exact Hopts. }
       rewrite Ho', Hv, Hf', Hc'. cbn [negb andb]. eexists. split; [reflexivity|]. exact Hl.
-    + unfold st_finalize. rewrite Hcl, Hopts, Hv.
+    + unfold st_finalize. rewrite Hfin, Hcl, Hopts, Hv.
       destruct (store_finalize_layout (KStorage wa) o roots ro s stored fi true false Ho Hv I Hfit (Hfi eq_refl))
         as (s' & Hsf & Hl & _).
-      rewrite Hfin. rewrite Hsf. eexists. split; [reflexivity|]. exact Hl.
+      rewrite Hsf. eexists. split; [reflexivity|]. exact Hl.
 Qed.
 
 (* every block LdWrite can frame: its 8-byte varint buffer holds lengths below 2^56 (the model
@@ -337,8 +337,8 @@ Proof.
     rewrite (store_finalize_bad_codec KBlockstore o roots ro s1 stored false true I1 Hfi).
     unfold bs_close. cbn [set_flags ws_opts ws_finalized ws_closed]. rewrite Hopts, Hv. cbn [negb andb].
     eexists. eexists. split; [reflexivity|]. exact Hfile.
-  - unfold st_finalize. rewrite Hcl, Hopts, Hv.
-    rewrite Hfin. rewrite (store_finalize_bad_codec (KStorage wa) o roots ro s1 stored true false I1 Hfi).
+  - unfold st_finalize. rewrite Hfin, Hcl, Hopts, Hv.
+    rewrite (store_finalize_bad_codec (KStorage wa) o roots ro s1 stored true false I1 Hfi).
     eexists. eexists. split; [reflexivity|]. exact Hfile.
 Qed.
 
